@@ -104,6 +104,112 @@ mod verif_c08 {
         purge_step::<1>();
     }
 
+
+    // ---- the mechanism that keeps purged deletes deleted for ever: whatever operation arrives
+    //      (timely or not, accepted or refused), no newest-seen stamp and no purge cut-off ever moves
+    //      backwards.  A purged delete was below its origin's cut-off when it was purged, so with
+    //      monotone cut-offs every later operation of that origin not newer than it stays refused
+    //      (c08_purge_step shows the refusal for the state right after the purge).
+    fn monotone_step<const N: usize>() {
+        let mut set = any_state::<N>();
+        let mut max_before = [[None; N]; NODES];
+        let mut cut_before = [None; NODES];
+        let mut n = 0;
+        while n < NODES {
+            max_before[n] = max_of(&set, n as u8);
+            cut_before[n] = set.versions.safe_last_stamps.get(&(n as u8)).copied();
+            n += 1;
+        }
+        let is_delete: bool = kani::any();
+        let key = any_key();
+        let ts = any_ts();
+        let source = any_source::<N>();
+        let ret = if is_delete { set.delete_with_source(source, key, ts) } else { set.insert_with_source(source, key, ts) };
+        let mut n = 0;
+        while n < NODES {
+            let after = max_of(&set, n as u8);
+            let mut s = 0;
+            while s < N {
+                match (max_before[n][s], after[s]) {
+                    (Some(b), Some(a)) => assert!(a >= b, "a newest-seen stamp never moves backwards"),
+                    (Some(_), None) => assert!(false, "a newest-seen stamp never disappears"),
+                    _ => {},
+                }
+                s += 1;
+            }
+            let cut_after = set.versions.safe_last_stamps.get(&(n as u8)).copied();
+            match (cut_before[n], cut_after) {
+                (Some(b), Some(a)) => assert!(a >= b, "a purge cut-off never moves backwards"),
+                (Some(_), None) => assert!(false, "a purge cut-off never disappears"),
+                _ => {},
+            }
+            // and it is what the newest-seen stamps say it is (min over sources, minus the window)
+            assert!(cut_after == spec_cutoff(&after, n as u8), "cut-off == spec(newest-seen stamps)");
+            n += 1;
+        }
+        kani::cover!(ret && newest_seen(&set, ts.node()).map(|m| m > ts).unwrap_or(false), "an out-of-order operation was applied");
+        kani::cover!(!ret, "refused operation");
+        forget(set);
+    }
+
+    #[kani::proof]
+    #[kani::unwind(@@UNWIND@@)]
+    fn c08_cutoff_monotone_n2() {
+        monotone_step::<2>();
+    }
+
+    // ---- an operation followed by a purge: the cut-off used by the purge is the one the REAL code
+    //      recomputed; only tombstones that EVERY source has seen the origin pass by more than the
+    //      window may go, and no live id changes
+    #[kani::proof]
+    #[kani::unwind(@@UNWIND@@)]
+    fn c08_op_then_purge_n2() {
+        let mut set = any_state::<2>();
+        let is_delete: bool = kani::any();
+        let key = any_key();
+        let ts = any_ts();
+        let source = any_source::<2>();
+        if is_delete {
+            set.delete_with_source(source, key, ts);
+        } else {
+            set.insert_with_source(source, key, ts);
+        }
+        let mut before = [View::Nothing; KEYS];
+        let mut k = 0;
+        while k < KEYS {
+            before[k] = view_of(&set, k as Key);
+            k += 1;
+        }
+        let purged = set.purge_old_deletes();
+        let mut gone = 0;
+        let mut k = 0;
+        while k < KEYS {
+            let after = view_of(&set, k as Key);
+            match (before[k], after) {
+                (View::Dead(t), View::Nothing) => {
+                    gone += 1;
+                    // every source has seen the origin at least a window past the tombstone
+                    let max = max_of(&set, t.node());
+                    let mut s = 0;
+                    while s < 2 {
+                        match max[s] {
+                            Some(m) => assert!(m.seconds() >= t.seconds() + WINDOW, "purged only after EVERY source saw the origin a window past the delete"),
+                            None => assert!(false, "a tombstone is never purged while some source has not seen its origin at all"),
+                        }
+                        s += 1;
+                    }
+                },
+                _ => assert!(after == before[k], "a purge only removes tombstones"),
+            }
+            k += 1;
+        }
+        assert!(purged.len() == gone);
+        assert!(inv(&set));
+        kani::cover!(gone >= 1, "a tombstone was purged after the operation");
+        forget(set);
+        forget(purged);
+    }
+
     // ---- purge followed by re-adding the reported tombstones restores every view
     #[kani::proof]
     #[kani::unwind(@@UNWIND@@)]
